@@ -838,6 +838,11 @@ class SecureHomeKitConnection(HomeKitConnection):
                 self._drop_transport()
                 raise
 
+        if self.transport is None or self.transport.is_closing():
+            # The accessory answered with a HTTP error (post_tlv closed the
+            # transport) or the connection dropped: there is no session.
+            raise AccessoryDisconnectedError("Connection closed during pair-verify")
+
         # Secure session has been negotiated - switch protocol so all future messages are encrypted
         self.protocol = SecureHomeKitProtocol(
             self,
